@@ -172,6 +172,8 @@ class IngestSuite(Suite):
             pil = evidence.parse_evidence_files(paths, maps, st, True)
         except Exception as e:
             return {"raise": gens.exn_name(e), "msg": str(e)[:120]}
+        if any(v[0] != v[0] for v in pil.values()):
+            return {"raise": "OtherError", "msg": "a peptide is stored with a NaN score: " + str([k for k, v in pil.items() if v[0] != v[0]][:3])}
         return {"ok": [[k, gens.fr(v[0]), list(v[1])] for k, v in pil.items()]}
 
     def render_in(self, case):
